@@ -438,7 +438,7 @@ theorem rel_send (total : Nat) (w : Watch) (s : St) (h : Rel total w s) :
       simp [observe, sendVal_eq, hfr]
     rw [ho]
     refine ⟨w, ?_, h⟩
-    simp [watchStep, hf, hfr, h.rest, h.fin, h.pos, Res.isRefusal]
+    simp [watchStep, hf, hfr, h.rest, h.fin, h.pos]
   | false =>
     obtain ⟨w', hw, hr⟩ := rel_next total w s h
     have ho : observe s .send = ((observeBasic s .next).1, { (observeBasic s .next).2 with op := .send }) := by
